@@ -1,2 +1,2 @@
-From LV Require Import Ledger.Import.
-NAMES run_script hash_of
+From LV Require Import Ledger.Import Ledger.ImportSchema.
+NAMES run_script hash_of sroundtrip
